@@ -135,6 +135,23 @@ def run(ctx):
             # the correspondence is broken; if the SSA form is invalid the verified checker above has reported it with this input
             ctx.violation("construction-correspondence", {"stage": "L2 construction model vs real SSA conversion", "source": src, "model": r[:600],
                                                           "broken": "correspondence SsaBuild.build <-> Cfg::into_ssa"}, no_input=True)
+    # L3: the operational model of the renaming (pre-order walk, global counters, scoped map) must produce the dump,
+    # version numbers included
+    l3 = 0
+    for (src, o), r in zip(meta2, vlib.run_model([q.replace("ssabuild ", "ssawalk ", 1) for q in reqs2])):
+        stats["walk model runs"] += 1
+        if r.startswith("ok both-fail"):
+            stats["conversions that fail in the walk model and in the code"] += 1
+        elif r.startswith("ok"):
+            stats["SSA forms reproduced by the walk model, numbers included"] += 1
+        if " hyps:" in r:
+            ctx.violation("walk-hypothesis " + r.split(" hyps:")[1][:40], {"stage": "hypotheses of theorem C14_walk on a real CFG", "source": src,
+                                                                           "model": r[:300], "broken": "hypothesis of theorem C14_walk"}, no_input=True)
+        if not r.startswith("ok"):
+            l3 += 1
+            ctx.violation("walk-correspondence", {"stage": "L3 walk model vs real SSA conversion", "source": src, "model": r[:600],
+                                                  "broken": "correspondence SsaWalk.run <-> Cfg::into_ssa"}, no_input=True)
+    ctx.coverage["l3_divergences"] = l3
     if not ok:
         ctx.violation("theorem " + ";".join(failing)[:200], {"broken": "theorem", "failing": failing}, no_input=True)
     cov = ctx.coverage
